@@ -39,6 +39,13 @@ Each function mirrors the Rust code named next to it (all paths relative to /rep
 * `rechunk`, `textStep`, `textDecodeItems` — `Request<Bytes>::try_into_stream` (request/generic.rs: `ready_chunks(16)`
                         over the body bytes) and `decode_text_chunks` of codec/stream.rs (`FromReq`/`FromRes` of
                         `StreamingText`): an incomplete UTF-8 tail is carried over to the next chunk.
+* `textOutWire`, `bytesOutWire`, `relayChunk`, `textDecodeWire`, `textOutRemote`, `bytesOutRemote` — a streamed
+                        *response*: `IntoRes<StreamingText> for TextStream` (`Ok(s)` ↦ chunk, `Err(e)` ↦ `Err(e.ser())`,
+                        every item relayed, nothing dropped after an error), `IntoRes<Streaming> for ByteStream`,
+                        `TryRes::try_from_stream` (response/generic.rs: an error chunk becomes
+                        `ServerFnErrorWrapper(E::de(bytes))`, which a transport prints with `Display` = `ser()`),
+                        `FromRes<StreamingText>` (`decode_text_chunks`: an `Err` chunk ↦ `E::de(bytes)`, the pending
+                        tail is kept) and `FromRes<Streaming>` (chunks handed over as they are).
 * `inputEncodingsOld`, `textStreamItemsOld` — the code before the repairs `fix: PatchUrl and PutUrl read their
                         arguments from the request body` (F-C13-1) and `fix: StreamingText completes a character
                         split across transport chunks` (F-C13-2); kept for the regression witnesses.
@@ -585,6 +592,54 @@ def textDecodeGo : Bytes → List Bytes → List (Except SErr Bytes)
     | (none, p') => textDecodeGo p' cs
 
 def textDecodeItems (chunks : List Bytes) : List (Except SErr Bytes) := textDecodeGo [] chunks
+
+/-! ### streamed responses: item lists with errors -/
+
+/-- a chunk on the wire: `Ok(bytes)` or `Err(serialized error)` (`Stream<Item = Result<Bytes, Bytes>>`) -/
+abbrev WireChunk := Except Bytes Bytes
+
+/-- `IntoRes<StreamingText> for TextStream`: every item is relayed, in order -/
+def textOutWire (items : List (Except SErr Bytes)) : List WireChunk :=
+  items.map fun it => match it with
+    | .ok b => .ok b
+    | .error e => .error (ser e)
+
+/-- `IntoRes<Streaming> for ByteStream`: the items are the chunks -/
+def bytesOutWire (items : List WireChunk) : List WireChunk := items
+
+/-- `try_from_stream` + transport: an error chunk is decoded into the declared error type and travels as
+that value's `Display`, i.e. its `ser()` bytes -/
+def relayChunk (cu : Custom) (c : WireChunk) : WireChunk :=
+  match c with
+  | .ok b => .ok b
+  | .error b => .error (ser (de cu b))
+
+/-- `decode_text_chunks` over wire chunks: an `Err` chunk is decoded with `E::de`, what is pending stays -/
+def textDecodeWire (cu : Custom) : Bytes → List WireChunk → List (Except SErr Bytes)
+  | pending, [] =>
+    if pending.isEmpty then []
+    else match utf8ErrGo 0 0 pending with
+      | none => [.ok pending]
+      | some e => [.error (fromSfe deserializationKind (utf8ErrMsg e))]
+  | pending, .error b :: cs => .error (de cu b) :: textDecodeWire cu pending cs
+  | pending, .ok c :: cs =>
+    match textStep pending c with
+    | (some it, p') => it :: textDecodeWire cu p' cs
+    | (none, p') => textDecodeWire cu p' cs
+
+/-- what the remote caller of a function with `output = StreamingText` receives -/
+def textOutRemote (cu : Custom) (items : List (Except SErr Bytes)) : List (Except SErr Bytes) :=
+  textDecodeWire cu [] ((textOutWire items).map (relayChunk cu))
+
+/-- what the remote caller of a function with `output = Streaming` receives -/
+def bytesOutRemote (cu : Custom) (items : List WireChunk) : List WireChunk :=
+  (bytesOutWire items).map (relayChunk cu)
+
+/-- the items up to and including the first error -/
+def uptoFirstErr {ε α : Type} : List (Except ε α) → List (Except ε α)
+  | [] => []
+  | .ok a :: rest => .ok a :: uptoFirstErr rest
+  | .error e :: _ => [.error e]
 
 /-- before the repair of F-C13-2: one `String::from_utf8` per transport chunk -/
 def textStreamItemsOld (chunks : List Bytes) : List (Except SErr Bytes) :=
